@@ -463,6 +463,7 @@ theorem call_denotes (I : Interp) (f : Sym) (as : List Term) (hp : f.params ≠ 
 /-! ## non-vacuity: the hypotheses `… = .ok t` are satisfiable -/
 
 section examples
+set_option linter.defProp false
 private def xi : Term := Term.var "x" .int
 private def yi : Term := Term.var "y" .int
 private def pb : Term := Term.var "p" .bool
